@@ -6,7 +6,7 @@ from vlib.run import *
 
 def gen_strings(rng, n):
     out = ['', ' ', 'a', 'secret', 'héllo wörld', '中文字符', '\U0001F600\U0001F4A9', 'QUJD', 'AAAA', '{"a":1}', '"quoted"', 'back\\slash', 'line\nbreak', 'tab\there',
-           '\x01\x02\x1f', 'a' * 8192, 'é' * 3000, 'x@y.co', 'Jane.Doe@Example.COM', ' pad@x.io ', 'UPPER@HOST.ORG', 'MiXeD.case+tag@Sub.Example.Org', '100% off %s', '-leading-dash', '--flag', "it's", '%s %d', 'not$field', 'REDACTED', '<b>&amp;</b>', '  ', '\x7f']
+           '\x01\x02\x1f', 'a' * 8192, 'é' * 3000, 'p' * 511 + 'X', 'p' * 512 + 'Y', 'q' * 1024 + 'Z', 'r' * 4096 + 'W', 'x@y.co', 'Jane.Doe@Example.COM', ' pad@x.io ', 'UPPER@HOST.ORG', 'MiXeD.case+tag@Sub.Example.Org', '100% off %s', '-leading-dash', '--flag', "it's", '%s %d', 'not$field', 'REDACTED', '<b>&amp;</b>', '  ', '\x7f']
     while len(out) < n:
         k = rng.randint(0, 200)
         s = ''.join(chr(rng.choice([rng.randint(32, 126), rng.randint(0xa0, 0x2ff), rng.randint(0x4e00, 0x4eff), rng.randint(0x1f600, 0x1f64f)])) for _ in range(k))
@@ -118,7 +118,7 @@ def run(chk, replay=None):
     # many distinct values in one run, then early ones again (one process; equal plaintexts far apart must still decrypt to themselves)
     with tempfile.TemporaryDirectory() as d:
         keyf = os.path.join(d, 'k.key'); open(keyf, 'wb').write(base64.b64encode(bytes(range(64))))
-        vals = ['customer-%04d ünï' % i for i in range(700 if th else 320)] + ['customer-0000 ünï', 'customer-0001 ünï', 'customer-0002 ünï']
+        vals = ['customer-%04d ünï' % i for i in range(9000 if th else 2600)] + ['customer-0000 ünï', 'customer-0001 ünï', 'customer-0002 ünï']      # more distinct values than any cache of a plausible size (256, 1024, 2048) holds
         inp = os.path.join(d, 'in.log')
         open(inp, 'wb').write(b''.join(json.dumps({'t': {'$date': '2020-01-01T00:00:00.000+00:00'}, 's': 'I', 'c': 'COMMAND', 'id': 1, 'ctx': 'c', 'msg': 'Slow query', 'attr': {'ns': 'd.c', 'command': {'find': 'c', 'filter': {'f': v}}}}, ensure_ascii=False).encode() + b'\n' for v in vals))
         outp = os.path.join(d, 'out.log')
@@ -131,7 +131,7 @@ def run(chk, replay=None):
             cts = [json.loads(ol)['attr']['command']['filter']['f'] for ol in outl]
             if cts[-3:] != cts[:3]:
                 chk.violate('equal plaintexts far apart in one run got different ciphertexts', {'first': cts[:3], 'again': cts[-3:]}, tags=['determinism', 'longrun'])
-            for v, ct in list(zip(vals, cts))[-3:] + list(zip(vals, cts))[255:260]:
+            for v, ct in list(zip(vals, cts))[-3:] + list(zip(vals, cts))[255:258] + list(zip(vals, cts))[1023:1026] + list(zip(vals, cts))[2047:2050]:
                 pr = subprocess.run([CLI, 'decrypt', '--decryptionKeyFile', keyf, '--', ct], stdin=subprocess.DEVNULL, capture_output=True)
                 marker = b'Raw value: '
                 got = pr.stdout[pr.stdout.find(marker) + len(marker):-1] if marker in pr.stdout else None
